@@ -82,21 +82,6 @@ theorem totalW_init (n : Nat) : totalW n init = 3 * n := by
 
 /-! ### draining what is in flight -/
 
-/-- the two goroutine steps of stage `s`: `Run` returns with `okf s`, then the status write -/
-def finishActs (okf : Nat → Bool) (s : Nat) : List Act := [.ret s (okf s), .post s]
-
-/-- every task in flight among the stages `0 … n-1` returns and its goroutine finishes -/
-def drainActs (okf : Nat → Bool) (n : Nat) : List Act := (List.range n).flatMap (finishActs okf)
-
-/-- one step of a fair schedule: drain, then one complete pass of the loop -/
-def round (c : Cfg) (okf : Nat → Bool) (n : Nat) (σ : St) : St :=
-  pass c (run c σ (drainActs okf n)) (List.range n)
-
-/-- the `for !isDone` loop under the fair schedule (fuel `k`) -/
-def rounds (c : Cfg) (okf : Nat → Bool) (n : Nat) : Nat → St → St
-  | 0, σ => σ
-  | k+1, σ => if isDone n σ || σ.cancelled then σ else rounds c okf n k (round c okf n σ)
-
 theorem finish_pc (c : Cfg) (okf : Nat → Bool) (σ : St) (t : Nat) :
     (run c σ (finishActs okf t)).pc = σ.pc := by
   simp only [finishActs, run, List.foldl_cons, List.foldl_nil, step]
